@@ -99,7 +99,7 @@ def versionToUsefulObject(version:ast.Call) -> 'incremental.Version':
         raise ValueError("Invalid call to incremental.Version(), 'minor' and 'micro' should be an ints.")
     return Version(package, major, minor=minor, micro=micro) # type:ignore[arg-type]
 
-_deprecation_text_with_replacement_template = "``{name}`` was deprecated in {package} {version}; please use `{replacement}` instead."
+_deprecation_text_with_replacement_template = "``{name}`` was deprecated in {package} {version}; please use {replacement} instead."
 _deprecation_text_without_replacement_template = "``{name}`` was deprecated in {package} {version}."
 
 _deprecated_signature = inspect.signature(deprecated)
@@ -143,11 +143,15 @@ def deprecatedToUsefulText(ctx:model.Documentable, name:str, deprecated:ast.Call
     if not validate_identifier(_package):
         raise ValueError(f"Invalid package name: {_package!r}")
     
-    if replacement is not None and not validate_identifier(replacement):
-        # The replacement is not an identifier, so don't even try to resolve it.
-        # By adding extras backtics, we make the replacement a literal text.
-        replacement = replacement.replace('\n', ' ')
-        replacement = f"`{replacement}`"
+    if replacement is not None:
+        if validate_identifier(replacement):
+            replacement = f"`{replacement}`"
+        else:
+            # The replacement is not an identifier, so don't even try to resolve it:
+            # it's presented as plain text. All kinds of line boundaries are replaced by 
+            # a space and every character that could be part of a markup is escaped.
+            replacement = ''.join(c if c.isalnum() or c == ' ' else f'\\{c}' 
+                                  for c in ' '.join(replacement.split()))
     
     if replacement is not None:
         text = _deprecation_text_with_replacement_template.format(
